@@ -10,6 +10,7 @@
 import NemoVerif.Lemmas.LifetimeT2
 import NemoVerif.Lemmas.LifetimeLinked
 import NemoVerif.Lemmas.LifetimeCount
+import NemoVerif.Lemmas.LifetimeV
 namespace NemoVerif.C06
 open NemoVerif.Lifetime
 
@@ -905,6 +906,102 @@ theorem abort_cyclic_as_is_counterexample : ∀ n : Nat,
       simp [this]
 
 /-! ## the transitive statement -/
+
+/-! ## the repaired recursion (finding `activation-cycle-recursion`, fixes/C06-activation-cycle.diff)
+
+`Models/LifetimeV.lean`: `_abort_flow` threads the set `in_progress` (field `State.busy`) of the instances that are
+being aborted / finished further up the call stack and does not enter them again.  This is the recursion the driver
+replays (`C06.abort|finish|endscope`); the as-is recursion is replayed next to it and must give the same answer on
+every recorded call whose hierarchy is acyclic. -/
+
+/-- **`abort_fuel_sufficient` at full strength for the repaired recursion**: NO acyclicity hypothesis — for every
+    state whose live instances are in the iteration order, an outermost repaired `_abort_flow` never exhausts fuel
+    `2·#instances + 1`: the Python recursion terminates on every hierarchy, mutually activating flows included. -/
+theorem abort_repaired_fuel_sufficient (n : Nat) (s : State) (u : Nat) (d : Bool)
+    (hd : ∀ v, (s.flows v).isSome = true → v ∈ s.order) (hn : 2 * s.order.length < n) :
+    abortTopV n s u d ≠ .error .fuel :=
+  abortTopV_fuel_sufficient n s u d hd hn
+
+theorem finish_repaired_fuel_sufficient (n : Nat) (s : State) (u : Nat) (d : Bool)
+    (hd : ∀ v, (s.flows v).isSome = true → v ∈ s.order) (hn : 2 * s.order.length < n) :
+    finishFlowV n s u d ≠ .error .fuel :=
+  finishFlowV_fuel_sufficient n s u d hd hn
+
+/-- on the 2-cycle where the as-is recursion never terminates (`abort_cyclic_as_is_counterexample`) the repaired one
+    stops both instances (non-vacuity of the two theorems above: `cyc` satisfies their hypotheses with `n = 5`) -/
+theorem abort_cyclic_repaired :
+    (match abortTopV 5 cyc 0 true with
+     | .ok s' => (s'.flows 0).map (·.status) == some .stopped && (s'.flows 1).map (·.status) == some .stopped
+     | .error _ => false) = true := by decide
+
+/-- what is carried through the repaired recursion on EVERY hierarchy: clause (iv) `LinkInv`, clause (iii) `CountInv`,
+    the action clauses `ActInv`.  (NOT carried: the children-form clause `FlowInv.dc` — its proof for the as-is
+    recursion rests on "a call leaves its instance not listening", which a skipped re-entered instance violates until
+    the call further up the stack completes; it needs the exempt set of `DC E` to contain `busy`.) -/
+structure RepairedInv (s : State) : Prop where
+  link : LinkInv s
+  cnt : CountInv s
+  act : ActInv s
+
+theorem repaired_inv_step (s : State) (op : IOp) (hi : RepairedInv s) : RepairedInv (applyOpV s op) := by
+  have henv : applyOpV s op = applyOp s op → RepairedInv (applyOpV s op) := fun e => by
+    rw [e]; exact ⟨LinkInv.step s op hi.link, CountInv.step s op hi.act hi.cnt, ActInv.step s op hi.act⟩
+  cases op with
+  | abort n u d =>
+    simp only [applyOpV]
+    cases h : abortTopV n s u d with
+    | error e => exact hi
+    | ok s' =>
+      exact ⟨abortTopV_closed linkInv_closed linkInv_busy n s u d s' hi.link h,
+        abortTopV_closed countInv_closed countInv_busy n s u d s' hi.cnt h,
+        abortTopV_closed actInv_closed.1 actInv_closed.2 n s u d s' hi.act h⟩
+  | finish n u d =>
+    simp only [applyOpV]
+    cases h : finishFlowV n s u d with
+    | error e => exact hi
+    | ok s' =>
+      exact ⟨finishFlowV_closed linkInv_closed linkInv_busy n s u d s' hi.link h,
+        finishFlowV_closed countInv_closed countInv_busy n s u d s' hi.cnt h,
+        finishFlowV_closed actInv_closed.1 actInv_closed.2 n s u d s' hi.act h⟩
+  | endScope n u nm =>
+    simp only [applyOpV]
+    cases h : endScopeV n s u nm with
+    | error e => exact hi
+    | ok s' =>
+      exact ⟨endScopeV_closed linkInv_closed linkInv_busy n s u nm s' hi.link h,
+        endScopeV_closed countInv_closed countInv_busy n s u nm s' hi.cnt h,
+        endScopeV_closed actInv_closed.1 actInv_closed.2 n s u nm s' hi.act h⟩
+  | startChild c fid p k => exact henv rfl
+  | reactivate fid known act hasInst source pm => exact henv rfl
+  | status u st => exact henv rfl
+  | newAction u a => exact henv rfl
+  | startAction a => exact henv rfl
+  | coWin loser a b => exact henv rfl
+  | event e => exact henv rfl
+  | label u => exact henv rfl
+  | noRestart u => exact henv rfl
+  | frame u heads scopes => exact henv rfl
+
+/-- **T2 for the repaired interpreter, partial**: in every state the operation-sequence semantics with the repaired
+    recursion can reach — cyclic activation graphs included, where every recursive operation now completes —
+    clauses (iii), (iv) and the action clauses hold.  Full statement (not proved for the repaired recursion on cyclic
+    hierarchies): `∀ ops, LifetimeInv (runV ops)`; on acyclic hierarchies the two recursions coincide (checked on every
+    recorded call by the harness), where `lifetime_invariant` applies. -/
+theorem lifetime_invariant_repaired_partial (ops : List IOp) : RepairedInv (runV ops) := by
+  unfold runV
+  suffices h : ∀ (l : List IOp) (s : State), RepairedInv s → RepairedInv (l.foldl applyOpV s) from
+    h ops _ ⟨LinkInv.init, CountInv.init, lifetime_inv0_init.act⟩
+  intro l
+  induction l with
+  | nil => intro s hs; exact hs
+  | cons op l ih => intro s hs; exact ih _ (repaired_inv_step s op hs)
+
+/-- non-vacuity: a run of the repaired machine through the mutual-activation cycle (main activates a, a activates b,
+    b re-activates a; main deactivates a twice): the last `abort` completes and stops both instances -/
+example : let s := runV [.status 0 .starting, .status 0 .started, .startChild 1 1 0 1, .status 1 .starting, .status 1 .started,
+      .startChild 2 2 1 1, .status 2 .starting, .status 2 .started, .reactivate 1 true true true 2 [1],
+      .abort 9 1 true, .abort 9 1 true]
+    (s.flows 1).map (·.status) = some .stopped ∧ (s.flows 2).map (·.status) = some .stopped := by decide
 
 /-- `c` is reachable from `u` through `child_flow_uids` (any depth) along non-activated instances -/
 inductive Desc (s : State) (u : Nat) : Nat → Prop
